@@ -331,4 +331,21 @@ PROPS["C15"] = dict(
     thorough=dict(checks=3000, shards=16, timeout=3400, shrinktime=60),
 )
 
+PROPS["C19"] = dict(
+    pkg="c19",
+    race=True,
+    level="exploration",
+    technique="property-based testing (rapid) under the Go race detector: generated sequential and concurrent call lists on one shared object, metamorphic comparison with a freshly constructed twin object",
+    level_text=("One shared object per case (parsed image with 1..3 signatures; decoded database; the Marshallable returned by SignEFIVariable; a decoded descriptor). A drawn list of up to 30 read-only operations "
+                "(Hash, Bytes, Open+read-all, Signatures, Verify against each signer and an outsider / Bytes, Marshal, list Bytes, SigDataExists, BytesExists, Exists / Marshal, Bytes / Marshal, Verify) is first applied sequentially, "
+                "then 2..16 goroutines, each with its own drawn list, are released by a barrier on the same object. Every result must equal the result of the same call on a twin object built from the same bytes and never shared; "
+                "afterwards the object must still encode/hash as before. The test binary is built with -race and GORACE=halt_on_error=1: the first reported data race ends the process and the journaled case becomes the replay file."),
+    level_note=("The harness does not own the Go scheduler: data races are found whenever both accesses execute (the detector is interleaving-independent), but a logical ordering bug without a data race would need a particular schedule and is only sampled. "
+                "A race replay re-runs the case under -race; a schedule cannot be pinned."),
+    rule=("case = (object bytes, operation lists per goroutine). Non-trivial = a list in which an operation is repeated after a different one, or >= 2 goroutines; distinct by SHA-256 of the case."),
+    assumptions=["Go race detector (happens-before based) reports every pair of conflicting accesses that were executed"],
+    quick=dict(checks=400, shards=4, timeout=1200, shrinktime=20),
+    thorough=dict(checks=4000, shards=16, timeout=3400, shrinktime=60),
+)
+
 NOT_APPLICABLE = _NA()
